@@ -123,6 +123,12 @@ func runCase(c Case, idx int) (fs []finding, incon string, obs map[string]int, r
 	case "disc0":
 		w.Disconnect(0, nil)
 		suppressed = true
+	case "disc0_invalid":
+		// CONNECT had Session Expiry Interval 0: a DISCONNECT that sets a non-zero one is a protocol error and
+		// "not a valid DISCONNECT" [MQTT-3.14.2-2] - it does not suppress the will
+		de := uint32(5)
+		w.Disconnect(0, &mqttx.Props{SessionExpiry: &de})
+		obs["invalid_disconnects"]++
 	case "disc4":
 		if c.HasDiscExpiry {
 			de := c.DiscExpiry
@@ -287,10 +293,10 @@ func runCase(c Case, idx int) (fs []finding, incon string, obs map[string]int, r
 
 func allCases(rng *rand.Rand, quick bool) []Case {
 	var cs []Case
-	ends := []string{"disc0", "disc4", "close", "malformed", "keepalive", "takeover0", "takeover1", "server_close", "terminate"}
+	ends := []string{"disc0", "disc0_invalid", "disc4", "close", "malformed", "keepalive", "takeover0", "takeover1", "server_close", "terminate"}
 	for _, v := range []byte{4, 5, 3} {
 		for _, end := range ends {
-			if end == "disc4" && v != 5 {
+			if (end == "disc4" || end == "disc0_invalid") && v != 5 {
 				continue
 			}
 			delays := []uint32{0}
@@ -301,6 +307,9 @@ func allCases(rng *rand.Rand, quick bool) []Case {
 			}
 			for _, d := range delays {
 				for _, e := range exps {
+					if end == "disc0_invalid" && e != 0 {
+						continue
+					}
 					type de struct {
 						has bool
 						v   uint32
@@ -336,18 +345,22 @@ func allCases(rng *rand.Rand, quick bool) []Case {
 	if quick {
 		rng.Shuffle(len(cs), func(i, j int) { cs[i], cs[j] = cs[j], cs[i] })
 		// keep one of every end kind and re-attachment kind, then fill up
-		seen := map[string]bool{}
+		seen := map[string]int{}
 		var keep, rest []Case
 		for _, c := range cs {
-			k := c.End + "|" + c.Reattach + fmt.Sprint(c.V == 5, c.HasDiscExpiry, c.DiscExpiry > c.Expiry, c.effDelay() != Case{V: c.V, Delay: c.Delay, Expiry: c.Expiry}.effDelay())
-			if !seen[k] {
-				seen[k] = true
+			k := c.End + "|" + c.Reattach + fmt.Sprint(c.V == 5, c.HasDiscExpiry, c.DiscExpiry > c.Expiry, c.effDelay() != Case{V: c.V, Delay: c.Delay, Expiry: c.Expiry}.effDelay(), c.End == "takeover0" && c.effDelay() > 0)
+			quota := 1
+			if c.End == "takeover0" && c.effDelay() > 0 {
+				quota = 4 // arming and cancelling the delayed will back to back is a race: several shots
+			}
+			if seen[k] < quota {
+				seen[k]++
 				keep = append(keep, c)
 			} else {
 				rest = append(rest, c)
 			}
 		}
-		for len(keep) < 64 && len(rest) > 0 {
+		for len(keep) < 68 && len(rest) > 0 {
 			keep = append(keep, rest[0])
 			rest = rest[1:]
 		}
